@@ -362,6 +362,21 @@ def r11_6(prog: Program, chk: Check) -> None:
         )
         own_line = idx_used.replace(" ", "") == "lineno-1"
         if own_line:
+            # several comments may trail one line: the code-specific form must look at the whole
+            # line (substring test / pattern containing the code), not at the first regex match only
+            first_match_only = ".group(" in t and "error_code.name" in t and not any(
+                isinstance(c, ast.Compare) and any(isinstance(o, ast.In) for o in c.ops) and "error_code.name" in norm(c.left)
+                for c in ast.walk(n.test)
+            )
+            chk.ob(
+                "R11.6",
+                f"node_visitor::BaseNodeVisitor.show_error::lines[{idx_used}]::code-form-scans-whole-line",
+                not first_match_only,
+                prog.site("node_visitor", n),
+                "the code-specific trailing form compares one regex match group with the code: only the first ignore comment on the line is honoured, "
+                "a second comment naming the code no longer suppresses it (and is reported as unused)",
+            )
+        if own_line:
             bare_ok = "(?!\\\\[)" in t or "(?!\\[)" in t or "group(1) is None" in t
         else:
             bare_ok = "== ignore_comment" in t
